@@ -51,8 +51,8 @@ def decl_text(p):
                 out.append("(relation %s (%s))" % (fn["name"], ins))
             else:
                 opts = ""
-                if fn.get("cost", 1) != 1:
-                    opts += " :cost %d" % fn["cost"]
+                if fn.get("rcost", fn.get("cost", 1)) != 1:
+                    opts += " :cost %d" % fn.get("rcost", fn["cost"])
                 if fn.get("unext"):
                     opts += " :unextractable"
                 out.append("(constructor %s (%s) %s%s)" % (fn["name"], ins, fn["out"], opts))
@@ -185,6 +185,8 @@ def cmd_text(p, c):
         return "(run-schedule %s)" % sched_text(p, c["s"])
     if k == "check":
         return "(check %s)" % (c["text"] if "text" in c else facts_text(p, c["facts"]))
+    if k == "extract":
+        return "(extract %s)" % gterm_text(p, c["t"]) if c["n"] == 0 else "(extract %s %d)" % (gterm_text(p, c["t"]), c["n"])
     if k == "push":
         return "(push)"
     if k == "pop":
@@ -236,11 +238,12 @@ class Gen:
         r, pf = self.rng, self.pf
         p = Prog()
         for i in range(pf["consts"]):
-            p.add("ABCDEFG"[i], "con", [], "E")
+            p.add("ABCDEFG"[i], "con", [], "E", cost=r.choice(pf.get("costs", [1])))
+        costs = pf.get("costs", [1])
         for i in range(pf["unary"]):
-            p.add(["F", "G"][i], "con", ["E"], "E")
+            p.add(["F", "G"][i], "con", ["E"], "E", cost=r.choice(costs))
         for i in range(pf["binary"]):
-            p.add(["H", "K"][i], "con", ["E", "E"], "E")
+            p.add(["H", "K"][i], "con", ["E", "E"], "E", cost=r.choice(costs))
         for i in range(pf["intcon"]):
             p.add(["N", "M"][i], "con", ["i64"], "E")
         for i in range(pf["rels"]):
@@ -658,6 +661,8 @@ class Gen:
                     st["stack"].append((set(st["declf"]), set(st["active"]), list(st["late"]), list(st["latef"])))
             else:
                 emit(dict(k="run", s=dict(k="run", rs=r.choice([q["name"] for q in p.rsets]), until=[])))
+            if pf.get("extract", 0) > 0 and r.random() < pf["extract"]:
+                emit(dict(k="extract", t=gterm(st, "E", pf["depth"]), n=r.choice([0, 0, 0, 2, 3])))
             if r.random() < pf["checks"]:
                 if r.random() < 0.7:
                     c = check_eq(p, gterm(st, "E", pf["depth"]), gterm(st, "E", pf["depth"]))
